@@ -1,4 +1,5 @@
-"""Kani engine: runs the complete (loop-free, full-domain) harnesses of kani/harness.rs inside the real crate."""
+"""Kani engine: runs the complete (loop-free / constant-loop, full-domain) harnesses of kani/harness.rs inside the real crate.
+Harnesses are grouped by flag set; each group is one `cargo kani -j N --output-format=terse` invocation."""
 import os
 import re
 import subprocess
@@ -6,41 +7,165 @@ import time
 
 ROOT = os.path.dirname(os.path.dirname(os.path.abspath(__file__)))
 
+KERNELS = [2, 3, 4, 5, 6, 7, 8, 9, 11, 12, 13, 16, 17, 19, 23, 24, 27, 29, 31, 32]
 HARNESSES = [
-    # name, properties, tier, kind
-    ('rotate90_f32_complete', ['C01', 'C06'], 'thorough', 'complete'),
-    ('rotate90_f64_complete', ['C01', 'C06'], 'thorough', 'complete'),
-    ('opposite_direction_complete', ['C06'], 'thorough', 'complete'),
+    # name, properties, tier, kind, flag group
+    ('rotate90_f32_complete', ['C01', 'C06'], 'thorough', 'complete', 'default'),
+    ('rotate90_f64_complete', ['C01', 'C06'], 'thorough', 'complete', 'default'),
+    ('opposite_direction_complete', ['C06'], 'thorough', 'complete', 'default'),
 ]
+for k in KERNELS:
+    for t in ('f32', 'f64'):
+        HARNESSES.append(('butterfly%d_kernel_%s' % (k, t), ['C03', 'C09', 'C15'], 'thorough', 'complete', 'nofloatchecks'))
+
+SSE_MAIN = [1, 2, 3, 4, 5, 6, 8, 9, 10, 12, 15, 16, 24, 32]
+SSE_PRIME = [7, 11, 13, 17, 19, 23, 29, 31]
+for k in sorted(SSE_MAIN + SSE_PRIME):
+    HARNESSES.append(('sse_f32_butterfly%d_single' % k, ['C03', 'C09', 'C15'], 'thorough', 'complete', 'sse'))
+    if k != 16:
+        HARNESSES.append(('sse_f32_butterfly%d_parallel' % k, ['C03', 'C07', 'C09', 'C15'], 'thorough', 'complete', 'sse'))
+    HARNESSES.append(('sse_f64_butterfly%d_single' % k, ['C03', 'C09', 'C15'], 'thorough', 'complete', 'sse'))
+
+GROUP_FLAGS = {
+    'sse': ['--features', 'sse', '--no-overflow-checks', '-Z', 'stubbing'],
+    'default': [],
+    # CBMC's float NaN/overflow checks are not properties of RustFFT (every input may be NaN or infinite); MIR-level integer
+    # overflow assertions, bounds checks, debug assertions and all pointer/memory-safety checks stay on.
+    'nofloatchecks': ['--no-overflow-checks'],
+}
+SPURIOUS = {}  # none: the float SIMD arithmetic intrinsics are stubbed lane-wise (kani/sse_macros.rs), so no check is ignored
+GROUP_TARGET = {'sse': 'kani-target-sse'}
+# parallel CBMC jobs per group: the large f64 scalar kernels need ~20 GB each
+GROUP_JOBS = {'default': 3, 'nofloatchecks': 2, 'sse': 3}
+ASSUME = {
+    'sse': 'Kani/CBMC on the SSE intrinsics as lowered to generic simd_* operations; all element bit patterns and both directions, constant loops fully unwound (complete for this kernel); float NaN/overflow checks off; the eight float arithmetic intrinsics (_mm_add/sub/mul/addsub_ps/pd) are stubbed lane-wise because the assert-and-assume "no overflow" on float simd_add/sub/mul would make all later code unreachable (vacuity found by a mutation test); is_x86_feature_detected is not reached (kernels are called directly, as the verified helpers call them)',
+    'default': 'Kani/CBMC bit-precise float model; loop-free over all bit patterns (complete)',
+    'nofloatchecks': 'Kani/CBMC; all element bit patterns and both directions, constant loops fully unwound with unwinding assertions (complete for this kernel and element type); CBMC float NaN/overflow checks off (not a property); sin/cos in compute_twiddle over-approximated (values irrelevant to memory safety)',
+}
+
+
+def parse(out):
+    """-> {harness: (ok: bool, failed_checks: [str])}"""
+    cur = {}
+    res = {}
+    th = None
+    for ln in out.split('\n'):
+        m = re.match(r'Thread (\d+): Checking harness (?:\S+::)?(\w+)\.\.\.', ln)
+        if m:
+            cur[m.group(1)] = m.group(2)
+            continue
+        m = re.match(r'Checking harness (?:\S+::)?(\w+)\.\.\.', ln)
+        if m:
+            cur['0'] = m.group(1)
+            th = '0'
+            continue
+        m = re.match(r'Thread (\d+):\s*$', ln)
+        if m:
+            th = m.group(1)
+            continue
+        if th is None or th not in cur:
+            continue
+        h = cur[th]
+        mc = re.search(r'(\d+) of (\d+) cover properties satisfied', ln)
+        if mc:
+            res.setdefault(h, [None, [], None])[2] = (int(mc.group(1)), int(mc.group(2)))
+        elif ln.startswith('Failed Checks:'):
+            res.setdefault(h, [None, [], None])[1].append(ln[len('Failed Checks:'):].strip())
+        elif 'VERIFICATION:- SUCCESSFUL' in ln:
+            res.setdefault(h, [None, [], None])[0] = True
+        elif 'VERIFICATION:- FAILED' in ln:
+            res.setdefault(h, [None, [], None])[0] = False
+    return res
+
+
+def tree_hash(repo):
+    """content hash of everything a harness result depends on: the crate sources/manifest of the CURRENT working tree and the
+    harness files.  Results are memoized on disk under this key only, so any edit anywhere in src/ re-runs every harness."""
+    import hashlib
+    h = hashlib.sha256()
+    files = []
+    for base, sub in ((repo, 'src'), (ROOT, 'kani')):
+        for dp, dn, fn in os.walk(os.path.join(base, sub)):
+            for f in fn:
+                if f.endswith('.rs') or f.endswith('.py'):
+                    files.append(os.path.join(dp, f))
+    files += [os.path.join(repo, 'Cargo.toml'), os.path.join(repo, 'Cargo.lock')]
+    for f in sorted(files):
+        try:
+            h.update(f.encode() + b'\0' + open(f, 'rb').read() + b'\0')
+        except OSError:
+            pass
+    return h.hexdigest()
 
 
 def run_for(prop, tier, repo, build):
+    import json
+    key = tree_hash(repo)
+    cdir = os.path.join(build, 'kani-cache')
+    os.makedirs(cdir, exist_ok=True)
+    cfile = os.path.join(cdir, key + '.json')
+    cache = {}
+    if os.environ.get('VERIF_KANI_NOCACHE') != '1' and os.path.exists(cfile):
+        try:
+            cache = json.load(open(cfile))
+        except Exception:
+            cache = {}
+    res = _run_for(prop, tier, repo, build, cache)
+    for r in res:
+        if r.get('status') in ('ok', 'fail') and not r.get('memoized'):
+            cache[r['harness']] = r
+    json.dump(cache, open(cfile, 'w'))
+    return res
+
+
+def _run_for(prop, tier, repo, build, cache):
     items = [h for h in HARNESSES if prop in h[1] and (tier == 'thorough' or h[2] == 'quick')]
     res = []
     if not items:
         return res
     env = dict(os.environ, CARGO_NET_OFFLINE='true', EJMAHLER_RUSTFFT_VERIF_DIR=ROOT,
                RUSTFLAGS='--cfg ejmahler_rustfft_verif')
-    tgt = os.path.join(build, 'kani-target')
-    for name, props, t, kind in items:
+    for h in items:
+        if h[0] in cache:
+            r = dict(cache[h[0]])
+            r['memoized'] = 'result of an earlier run on a byte-identical source tree (key = sha256 of /repo/src, Cargo.toml, Cargo.lock, kani/)'
+            res.append(r)
+    items = [h for h in items if h[0] not in cache]
+    for grp in sorted(set(h[4] for h in items)):
+        g = [h for h in items if h[4] == grp]
         t0 = time.time()
-        cmd = ['cargo', 'kani', '--no-default-features', '--target-dir', tgt, '--harness', name]
+        tgt = os.path.join(build, GROUP_TARGET.get(grp, 'kani-target'))
+        cmd = ['cargo', 'kani', '--no-default-features', '--target-dir', tgt, '-j', str(GROUP_JOBS.get(grp, 2)), '--output-format=terse'] + GROUP_FLAGS[grp]
+        for h in g:
+            cmd += ['--harness', h[0]]
         try:
-            p = subprocess.run(cmd, cwd=repo, env=env, capture_output=True, text=True, timeout=900)
+            p = subprocess.run(cmd, cwd=repo, env=env, capture_output=True, text=True, timeout=3 * 3600)
             out = p.stdout + p.stderr
         except subprocess.TimeoutExpired:
-            res.append({'harness': name, 'kind': kind, 'status': 'inconclusive', 'reason': 'timeout', 'wall_s': time.time() - t0, 'obligations': 1, 'discharged': 0})
+            for h in g:
+                res.append({'harness': h[0], 'kind': h[3], 'status': 'inconclusive', 'reason': 'timeout', 'wall_s': time.time() - t0, 'obligations': 1, 'discharged': 0})
             continue
-        r = {'harness': name, 'kind': kind, 'wall_s': round(time.time() - t0, 1), 'obligations': 1, 'cmd': ' '.join(cmd),
-             'assumptions': ['Kani/CBMC bit-precise float model; harness ' + name + ' is loop-free over all bit patterns (complete)']}
-        if 'VERIFICATION:- SUCCESSFUL' in out:
-            r.update(status='ok', discharged=1)
-        elif 'VERIFICATION:- FAILED' in out:
-            failed = re.findall(r'Failed Checks: (.*)', out)
-            r.update(status='fail', discharged=0)
-            r['failures'] = [{'obligation': 'kn:' + name, 'function': name, 'message': 'Kani harness failed: ' + '; '.join(failed[:3]),
-                              'where': [], 'rendered': '\n'.join([l for l in out.split('\n') if 'Failed Checks' in l or 'VERIFICATION' in l][:10]), 'tags': []}]
-        else:
-            r.update(status='inconclusive', discharged=0, reason=out[-600:])
-        res.append(r)
+        wall = round(time.time() - t0, 1)
+        parsed = parse(out)
+        shown = ' '.join(cmd[:9]) + ' --harness <%d harnesses of group %s>' % (len(g), grp)
+        for name, props, t, kind, _ in g:
+            r = {'harness': name, 'kind': kind, 'wall_s': round(wall / max(1, len(g)), 1), 'obligations': 1, 'cmd': shown, 'assumptions': [ASSUME[grp]]}
+            ok, failed, cover = parsed.get(name, (None, [], None))
+            needs_cover = grp in ('nofloatchecks', 'sse')
+            if ok is False and grp in SPURIOUS and failed and all(SPURIOUS[grp].match(f) for f in failed):
+                ok = True
+                r['ignored_checks'] = sorted(set(failed))
+            if ok is True and needs_cover and (cover is None or cover[0] != cover[1] or cover[1] == 0):
+                r.update(status='inconclusive', discharged=0, reason='VACUITY: the end of the harness is not reachable (cover %s)' % (cover,))
+            elif ok is True:
+                r.update(status='ok', discharged=1)
+                if cover:
+                    r['cover'] = '%d of %d reachability covers satisfied' % cover
+            elif ok is False:
+                r.update(status='fail', discharged=0)
+                r['failures'] = [{'obligation': 'kn:' + name, 'function': name, 'message': 'Kani harness failed: ' + '; '.join(failed[:3]),
+                                  'where': [], 'rendered': 'harness %s\n' % name + '\n'.join('Failed Checks: ' + f for f in failed[:10]), 'tags': []}]
+            else:
+                r.update(status='inconclusive', discharged=0, reason='no result for this harness: ' + out[-400:])
+            res.append(r)
     return res
